@@ -25,8 +25,8 @@ type OrdMap struct {
 	Len      func() int
 	Each     func(visit func(k string, v int))
 	EachRev  func(visit func(k string, v int)) // may be nil
-	Map      func(f func(k string, v int) int)  // may be nil
-	Track    func()                             // registers the object with the lock monitor
+	Map      func(f func(k string, v int) int) // may be nil
+	Track    func()                            // registers the object with the lock monitor
 }
 
 func contains(ks []string, k string) int {
